@@ -18,6 +18,9 @@
 #include <vector>
 
 #include "exact.h"
+#ifdef VF_VALGRIND
+#include <valgrind/valgrind.h>
+#endif
 
 namespace vf {
 
@@ -81,6 +84,7 @@ struct Harness {
   long nviol = 0;
   bool capped = false;
   bool in_case = false;
+  long vg_errors_at_begin = 0;
   std::string cur;
   std::map<std::string, long> classes, counters;
   std::vector<Violation> violations;
@@ -142,6 +146,9 @@ struct Harness {
     strncpy(g_cur, desc.c_str(), sizeof g_cur - 1);
     evaluations++;
     in_case = true;
+#ifdef VF_VALGRIND
+    vg_errors_at_begin = (long)VALGRIND_COUNT_ERRORS;
+#endif
     g_poison_reads = 0;
     g_div_zero = 0;
     size_t h = std::hash<std::string>{}(desc);
@@ -156,6 +163,12 @@ struct Harness {
   }
   /// call at the end of each case: reports poison / division-by-zero counters
   void end() {
+#ifdef VF_VALGRIND
+    {
+      long now = (long)VALGRIND_COUNT_ERRORS;
+      if (now > vg_errors_at_begin) fail("valgrind", "memcheck reported " + std::to_string(now - vg_errors_at_begin) + " error(s) (use of uninitialised values / invalid access) while this case ran");
+    }
+#endif
     if (g_poison_reads) fail("uninit", "read of " + std::to_string(g_poison_reads) + " uninitialised (default-constructed) scalar value(s)");
     if (g_div_zero) fail("divzero", "division by zero inside the code under test");
     g_poison_reads = 0;
